@@ -217,7 +217,7 @@ class BcastClientSide(Redis):
                 if value is _empty_in_redis:
                     value = default
                 values[key] = value
-                missed_keys.remove(self._add_prefix(key))
+                missed_keys.discard(self._add_prefix(key))  # (a key may be asked for more than once)
         # `_empty`, not the caller's default, tells "the server has nothing": a stored value may be equal (or identical) to it
         missed_values = await super().get_many(*missed_keys, default=_empty)
         missed = dict(zip((self._remove_prefix(key) for key in missed_keys), missed_values))
@@ -227,7 +227,7 @@ class BcastClientSide(Redis):
             else:
                 await self._local_cache.set(key, _empty_in_redis)
                 missed[key] = default
-        return tuple(missed.get(key, value) for key, value in values.items())
+        return tuple(missed.get(key, values[key]) for key in keys)  # one answer per asked position
 
     async def get_match(self, pattern: str, batch_size: int = 100) -> AsyncIterator[tuple[Key, Value]]:  # type: ignore
         cursor = 0
